@@ -168,10 +168,18 @@ func (f *DB) Reload(path string, validationKey []byte, reloadTimeout time.Durati
 	var destroyNewDbi bool
 	var err error
 
+	// The reload goroutine can outlive this call (timeout) while it still works
+	// on f.dbi: it holds a reference, so that a Destroy in the meantime leaves
+	// closing the backend to the last reference.
+	f.l.Lock()
+	f.refCount++
+	f.l.Unlock()
+
 	// reload goroutine
 	go func() {
 		var localDBI DBI
 		localDBI, err = f.dbi.Reload(path)
+		f.unref()
 		m.Lock()
 		defer m.Unlock()
 		if localDBI != nil && destroyNewDbi && localDBI != f.dbi {
@@ -231,6 +239,18 @@ func (f *DB) Reload(path string, validationKey []byte, reloadTimeout time.Durati
 	}
 
 	return f, nil
+}
+
+// unref drops a reference to the DB that is not held by a Reader. The last
+// reference closes a DB that was destroyed in the meantime.
+func (f *DB) unref() {
+	f.l.Lock()
+	defer f.l.Unlock()
+	f.refCount--
+	if f.destroyable && f.refCount == 0 {
+		glog.Infof("refcount == 0 && destroyable: Closing DB")
+		f.dbi.Close()
+	}
 }
 
 // validateDbKeyOrDestroy validates DB with the validationKey, and destroys the
